@@ -8,7 +8,7 @@ terms over the inputs.
 import z3
 
 from . import symex as sx
-from . import scen, spec, stubs, npmodel, inject
+from . import scen, spec, stubs, npmodel, inject, hidden
 from .scen import Shape
 
 import nasim.envs.network as m_net
@@ -58,10 +58,13 @@ def run(src, q):
     limit = None
     if q.get('limit') == 'sym':
         limit = src.int('limit', 1, None)
+    decode = q.get('decode')        # None | 'flat' | 'param': pass the action the way users do
+    costs = symbolic_scan_costs(src) if decode else None
     w = scen.build_world(src, shape, sens=sens, step_limit=limit,
-                         host_fw=q.get('host_fw', True))
+                         host_fw=q.get('host_fw', True), scan_costs=costs)
+    scan_cost = costs[kind[:-5]] if (decode and kind.endswith('_scan')) else None
     A = scen.make_action(w, kind, target, q.get('name'), q.get('os'),
-                         req_symbolic=q.get('req_sym', True))
+                         req_symbolic=q.get('req_sym', True) and not decode, cost=scan_cost)
     r = Rec()
     r.q, r.w, r.A = q, w, A
     r.limit = limit
@@ -82,14 +85,38 @@ def run(src, q):
         scenario_actions(w, A)
         with stubs.sut():
             env = m_env.NASimEnv(w.scenario, fully_obs=q.get('fully_obs', False),
-                                 flat_actions=q.get('flat_actions', True),
+                                 flat_actions=(decode != 'param') and q.get('flat_actions', True),
                                  flat_obs=q.get('flat_obs', True))
         net = env.network
         state = env.current_state
+        if decode:
+            A.arg = encode(env, w, A, decode == 'flat')
         if q.get('other_state'):
             state = state.copy()
     r.env, r.net, r.state = env, net, state
-    r.pre = scen.symbolic_state(w, state)
+    if env is not None and q.get('steps_sym'):
+        env.steps = src.int('steps', 0, None)
+    with scripted:
+        _call(src, q, r, w, A, env, net, state, level, "", scripted, draws, 0)
+        if r.hidden_changed and not q.get('no_second_call'):
+            # the induction premise (no memory outside the state) is broken: make a second call
+            # on the same objects from a fresh arbitrary Inv-state
+            r2 = Rec()
+            r2.q, r2.w, r2.A, r2.limit = q, w, A, r.limit
+            state2 = state.copy() if level != 'step' else env.current_state.copy()
+            if level == 'step':
+                env.current_state = state2
+            n0 = len(sx.cur().draws) if symbolic else scripted.calls
+            _call(src, q, r2, w, A, env, net, state2, level, "y", scripted, draws, n0)
+            r.second = r2
+    return r
+
+
+def _call(src, q, r, w, A, env, net, state, level, tag, scripted, draws, ndraws0):
+    """put the (tagged) symbolic status into `state`, call the function under test, collect"""
+    symbolic = src.symbolic
+    r.env, r.net, r.state = env, net, state
+    r.pre = scen.symbolic_state(w, state, tag=tag)
     r.st = scen.zstatus(r.pre)
     if symbolic:
         sx.assume(scen.inv(w, r.st))
@@ -97,33 +124,42 @@ def run(src, q):
     r.pre_rows = tensor_rows(state.tensor)
     r.steps0 = None
     if env is not None:
-        if q.get('steps_sym'):
-            env.steps = src.int('steps', 0, None)
         r.steps0 = sx.znum(env.steps)
         r.cur_rows0 = tensor_rows(env.current_state.tensor)
         r.lastobs_rows0 = tensor_rows(env.last_obs.tensor)
         r.cur_obj0, r.lastobs_obj0 = env.current_state, env.last_obs
-
     r.lim = None
     if q.get('goal_query') and env is not None:
         with stubs.sut():
             r.goal_cur = env.goal_reached()
             r.goal_pre = env.goal_reached(state)
-    with scripted:
-        with stubs.sut():
-            if level == 'net':
-                ns, res = net.perform_action(state, A.obj)
-                r.obs = r.reward = r.done = r.info = None
-            elif level == 'gen':
-                ns, obs, reward, done, info = env.generative_step(state, A.obj)
-                r.obs, r.reward, r.done, r.info = obs, reward, done, info
-                res = None
-            else:
-                obs_arr, reward, done, lim, info = env.step(A.obj)
-                ns = env.current_state
-                r.obs_arr, r.obs, r.reward, r.done, r.lim, r.info = \
-                    obs_arr, env.last_obs, reward, done, lim, info
-                res = None
+    objs = dict(net=net, scenario=w.scenario, action=A.obj)
+    skip = set()
+    if env is not None:
+        objs['env'] = env
+        skip = {('env', 'np_random'), ('env', '_np_random'), ('env', '_np_random_seed')}
+        if level == 'step':
+            skip |= {('env', 'current_state'), ('env', 'last_obs'), ('env', 'steps')}
+    for a_, h_ in list(w.hosts.items())[:6]:
+        objs['host%d_%d' % a_] = h_
+    _ = (w.scenario.exploit_map, w.scenario.privesc_map)      # documented lazy memo: warm it
+    before = hidden.snapshot(objs, skip)
+    with stubs.sut():
+        if level == 'net':
+            ns, res = net.perform_action(state, A.obj)
+            r.obs = r.reward = r.done = r.info = None
+        elif level == 'gen':
+            ns, obs, reward, done, info = env.generative_step(state, getattr(A, 'arg', A.obj))
+            r.obs, r.reward, r.done, r.info = obs, reward, done, info
+            res = None
+        else:
+            obs_arr, reward, done, lim, info = env.step(getattr(A, 'arg', A.obj))
+            ns = env.current_state
+            r.obs_arr, r.obs, r.reward, r.done, r.lim, r.info = \
+                obs_arr, env.last_obs, reward, done, lim, info
+            res = None
+    r.hidden_changed = hidden.diff(before, hidden.snapshot(objs, skip))
+    r.second = None
     r.ns = ns
     r.post_rows = tensor_rows(ns.tensor)
     r.state_rows_after = tensor_rows(state.tensor)
@@ -141,13 +177,13 @@ def run(src, q):
                      undef=sx.zbool(info['undefined_error']))
         r.res_obj = None
     if symbolic:
-        r.ndraws = len(sx.cur().draws)
-        r.u = sx.cur().draws[0] if sx.cur().draws else None
+        alld = sx.cur().draws
+        r.ndraws = len(alld) - ndraws0
+        r.u = alld[ndraws0] if len(alld) > ndraws0 else None
     else:
-        r.ndraws = scripted.calls
-        r.u = draws[0] if draws else (0.0 if scripted.calls else None)
+        r.ndraws = scripted.calls - ndraws0
+        r.u = draws[ndraws0] if len(draws) > ndraws0 else (0.0 if r.ndraws else None)
     r.step = spec.Step(w, r.pre, A, r.u)
-    return r
 
 
 def base_queries(tier, level='net', kinds=scen.KINDS, extra=None):
@@ -182,6 +218,29 @@ def base_queries(tier, level='net', kinds=scen.KINDS, extra=None):
                         d.update(extra)
                     qs.append(d)
     return qs
+
+
+TYPE_IDX = dict(exploit=0, privesc=1, service_scan=2, os_scan=3, subnet_scan=4, process_scan=5)
+
+
+def encode(env, w, A, flat):
+    """the action as a user of that action mode passes it: flat index or parameter vector"""
+    if flat:
+        for i, a in enumerate(env.action_space.actions):
+            if type(a) is type(A.obj) and tuple(a.target) == tuple(A.target) and \
+               getattr(a, 'name', None) == A.obj.name:
+                return i
+        raise RuntimeError("action under test not in the flat space")
+    t = A.target
+    osi = 0 if A.os is None else w.oss.index(A.os) + 1
+    srv = w.services.index(A.name) if A.kind == 'exploit' else 0
+    prc = w.procs.index(A.name) if A.kind == 'privesc' else 0
+    return [TYPE_IDX[A.kind], t[0] - 1, t[1], osi, srv, prc]
+
+
+def symbolic_scan_costs(src):
+    return dict(service=src.quarter('c_service', 0, 400), os=src.quarter('c_os', 0, 400),
+                subnet=src.quarter('c_subnet', 0, 400), process=src.quarter('c_process', 0, 400))
 
 
 EXTRA_STUBS = [(m_env, 'spaces', stubs.SpacesModel)]
